@@ -133,14 +133,12 @@ func (nd *node) dirNames() []string {
 	return names
 }
 
-// remove deletes the content of a node.
+// remove deletes the children of a node and decrements its reference counter.
+// The data is kept for the files still open on the node, it is released with the node by the garbage collector.
 func (nd *node) remove() {
 	nd.children = nil
 
 	nd.nlink--
-	if nd.nlink == 0 {
-		nd.data = nil
-	}
 }
 
 // setMode sets the permissions of the file node.
